@@ -2191,6 +2191,10 @@ func (n *RegexNode) dump() string {
 // consumed. true is only valid when used as part of a search to determine where to try a full match, not as part of
 // actual matching logic.
 // consumeZeroWidthNodes = false
+// maxOrdinalCaseInsensitiveRepeat bounds the repeat count of a set loop that
+// TryGetOrdinalCaseInsensitiveString will expand into literal text.
+const maxOrdinalCaseInsensitiveRepeat = 1024
+
 func (n *RegexNode) TryGetOrdinalCaseInsensitiveString(childIndex int, exclusiveChildBound int, consumeZeroWidthNodes bool) (success bool, nodesConsumed int, caseInsensitiveString string) {
 	vsb := &strings.Builder{}
 
@@ -2232,6 +2236,10 @@ func (n *RegexNode) TryGetOrdinalCaseInsensitiveString(childIndex int, exclusive
 			count := child.M
 			if child.T == NtSet {
 				count = 1
+			}
+			if count > maxOrdinalCaseInsensitiveRepeat {
+				// don't materialise huge repeat counts ((?i)a{2000000000} would build a 2 GB string)
+				break
 			}
 			vsb.WriteString(strings.Repeat(string(twoChars[0]|0x20), count))
 		} else if child.T == NtEmpty {
